@@ -194,6 +194,13 @@ static void mode_lifetimes(Ctx &c) {
       VH_OP("lifetimes:refill-source-key");
       tfhe_createLweBootstrappingKey(bk, sk2->lwe_key, sk2->tgsw_key);
       same(f0, round_of(FFT, "lifetime:source-key-refilled"), "FFT key used after its source key object was re-filled for another secret key");
+      // the re-filled object itself now belongs to the second secret key, exactly as a freshly allocated one would
+      { Ctx c2 = c; c2.sk = sk2; c2.s = sk2->lwe_key->key; for (int i = 0; i < c.k; i++) for (int j = 0; j < c.N; j++) c2.ext[i * c.N + j] = sk2->tgsw_key->tlwe_key.key[i].coefs[j];
+        make_tolerances(c2);
+        for (auto &v: xs) { memcpy(x->a, v.data(), 4 * c.n); x->b = v[c.n]; x->current_variance = 1e-6; run_bootstrap(c2, KS, (Torus32) (1u << 29), x, "lifetime:key-object-refilled-in-place", false); run_bootstrap(c2, WOKS, (Torus32) (1u << 29), x, "lifetime:key-object-refilled-in-place", false); }
+        LweBootstrappingKeyFFT *bkf3 = new_LweBootstrappingKeyFFT(bk); const LweBootstrappingKeyFFT *keep = use_bkf; use_bkf = bkf3;
+        for (auto &v: xs) { memcpy(x->a, v.data(), 4 * c.n); x->b = v[c.n]; run_bootstrap(c2, KS_FFT, (Torus32) (1u << 29), x, "lifetime:key-object-refilled-in-place", false); }
+        use_bkf = keep; delete_LweBootstrappingKeyFFT(bkf3); }
       // a second FFT key derived now belongs to the second secret key, and deleting it leaves the first untouched
       LweBootstrappingKeyFFT *bkf2 = new_LweBootstrappingKeyFFT(bk); delete_LweBootstrappingKeyFFT(bkf2);
       same(f0, round_of(FFT, "lifetime:sibling-deleted"), "FFT key used after a sibling FFT key of the same source object was deleted");
@@ -216,7 +223,7 @@ static void mode_lifetimes(Ctx &c) {
       TFheGateBootstrappingSecretKeySet *sk3 = new_random_gate_bootstrapping_secret_keyset(c.ps->gb); delete_gate_bootstrapping_secret_keyset(sk3);
       same(g0, round_of(FFT, "lifetime:other-keyset-deleted"), "key set used after another key set of the same parameters was generated and deleted"); }
     char cell[128];
-    for (const char *h: {"source-key-refilled", "sibling-deleted", "source-key-deleted", "derived-key-deleted", "other-keyset-deleted"}) { snprintf(cell, sizeof cell, "%s:lifetime:%s", c.cfg.c_str(), h); out.cell(cell, xs.size()); }
+    for (const char *h: {"source-key-refilled", "key-object-refilled-in-place", "sibling-deleted", "source-key-deleted", "derived-key-deleted", "other-keyset-deleted"}) { snprintf(cell, sizeof cell, "%s:lifetime:%s", c.cfg.c_str(), h); out.cell(cell, xs.size()); }
     delete_LweSample(x);
 }
 
@@ -258,14 +265,11 @@ static void mode_extract(Ctx &c, int step, bool fft, bool nofft) {
     delete_TorusPolynomial(v);
 }
 
-int main(int argc, char **argv) {
-    Args args(argc, argv);
-    out.open(args.s("out", "-"));
-    install_crash_handler();
-    uint64_t seed = args.i("seed", 1);
+static void run_config(Args &args, uint64_t seed, int n, int k, int l, int Bgbit, int t, int bb, const std::string &modes, int entry_mask, int count, int pstep, int coefdomain) {
     Ctx c;
-    c.n = args.i("n", 8); c.N = 1024; c.k = args.i("k", 1); c.l = args.i("l", 3); c.Bgbit = args.i("Bgbit", 7);
-    c.t = args.i("t", 10); c.bb = args.i("basebit", 2);
+    c.n = n; c.N = 1024; c.k = k; c.l = l; c.Bgbit = Bgbit;
+    c.t = t; c.bb = bb;
+    for (double &m: max_err) m = 0;
     double a_bk = args.d("bk_stdev", ldexp(1.0, -31)), a_ks = args.d("ks_stdev", ldexp(1.0, -31));
     rng.reseed(seed * 1000003ull + c.n * 7 + c.k * 3 + c.l * 11 + c.Bgbit);
     seed_library(seed * 31 + c.n);
@@ -277,17 +281,32 @@ int main(int argc, char **argv) {
     c.ext.resize(c.k * c.N);
     for (int i = 0; i < c.k; i++) for (int j = 0; j < c.N; j++) c.ext[i * c.N + j] = c.sk->tgsw_key->tlwe_key.key[i].coefs[j];
     make_tolerances(c);
-    std::string modes = args.s("modes", "abc");
-    int entry_mask = args.i("entries", 15);
     if (modes.find('a') != std::string::npos) mode_trivial(c, entry_mask);
-    if (modes.find('b') != std::string::npos) mode_masks(c, entry_mask, args.i("count", 40));
+    if (modes.find('b') != std::string::npos) mode_masks(c, entry_mask, count);
     if (modes.find('d') != std::string::npos) mode_lifetimes(c);
-    if (modes.find('c') != std::string::npos) mode_extract(c, args.i("pstep", 1), true, args.i("coefdomain", 1));
+    if (modes.find('c') != std::string::npos) mode_extract(c, pstep, true, coefdomain);
     out.stat(J().s("kind", "bootstrap-config").s("config", c.cfg).d("tol_woKS", c.tol_woks).d("tol_KS", c.tol_ks).d("tol_structured_extra", c.tol_struct)
                      .d("max_err_woKS_FFT", max_err[0]).d("max_err_KS_FFT", max_err[1]).d("max_err_woKS", max_err[2]).d("max_err_KS", max_err[3]));
     out.sample(J().s("config", c.cfg).s("modes", modes).d("tol_woKS", c.tol_woks).d("tol_KS", c.tol_ks).d("max_err_woKS_FFT", max_err[0]).d("max_err_KS_FFT", max_err[1]));
     delete_gate_bootstrapping_secret_keyset(c.sk);
     delete c.ps;
+}
+
+int main(int argc, char **argv) {
+    Args args(argc, argv);
+    out.open(args.s("out", "-"));
+    install_crash_handler();
+    uint64_t seed = args.i("seed", 1);
+    // process history: another parameter layout (every dimension different, key-switching decomposition included) is generated
+    // and bootstrapped with first, so that nothing the library computed once for the first key it saw can leak into the second
+    if (args.i("prelude", 0)) {
+        int k0 = args.i("k", 1) == 1 ? 2 : 1, t0 = args.i("t", 10) == 3 ? 4 : 3, bb0 = args.i("basebit", 2) == 3 ? 2 : 3;
+        int l0 = args.i("l", 3) == 2 ? 3 : 2, bg0 = args.i("Bgbit", 7) == 8 ? 9 : 8;
+        run_config(args, seed + 1000, 3 + (int) (seed % 3), k0, l0, bg0, t0, bb0, "b", 3, 6, 64, 0);
+        out.cell("history:other-parameter-layout-used-first-in-this-process");
+    }
+    run_config(args, seed, args.i("n", 8), args.i("k", 1), args.i("l", 3), args.i("Bgbit", 7), args.i("t", 10), args.i("basebit", 2),
+               args.s("modes", "abc"), args.i("entries", 15), args.i("count", 40), args.i("pstep", 1), args.i("coefdomain", 1));
     out.finish();
     return 0;
 }
